@@ -391,6 +391,7 @@ func (p *sparser) primary() Expr {
 // ---------- contract files ----------
 
 type Clause struct {
+	NoProve  bool
 	NoAssume bool
 	Label string
 	Props []string // property ids restricting the clause; empty = function's props
@@ -598,6 +599,13 @@ func (db *SpecDB) parseSpecText(text, file, pkgPath string) error {
 			fmt.Sscanf(parts[1], "%d", &lo)
 			fmt.Sscanf(parts[2], "%d", &hi)
 			tail := strings.TrimSpace(rest[strings.Index(rest, parts[2])+len(parts[2]):])
+			propsPrefix := ""
+			if strings.HasPrefix(tail, "[") {
+				if j := strings.Index(tail, "]"); j > 0 {
+					propsPrefix = tail[:j+1] + " "
+					tail = strings.TrimSpace(tail[j+1:])
+				}
+			}
 			ci := strings.Index(tail, ":")
 			if ci <= 0 {
 				return fail("ensures-split needs a label")
@@ -612,13 +620,13 @@ func (db *SpecDB) parseSpecText(text, file, pkgPath string) error {
 					src = fmt.Sprintf("(%s < %d || %s > %d) ==> (%s)", sel, lo, sel, hi, body)
 					lab = label + ".other"
 				}
-				c, err := parseClause(lab+": "+src, file, l.line)
+				c, err := parseClause(propsPrefix+lab+": "+src, file, l.line)
 				if err != nil {
 					return err
 				}
 				cur.Ensures = append(cur.Ensures, c)
 			}
-		case "requires", "needs", "ensures", "proves", "assert", "invariant", "decreases":
+		case "requires", "needs", "ensures", "proves", "defines", "assert", "invariant", "decreases":
 			if cur == nil {
 				return fail("%s outside func", kw)
 			}
@@ -633,6 +641,12 @@ func (db *SpecDB) parseSpecText(text, file, pkgPath string) error {
 				cur.Needs = append(cur.Needs, c)
 			case "ensures":
 				cur.Ensures = append(cur.Ensures, c)
+			case "defines":
+				// a definitional postcondition: it gives a name (an uninterpreted specification
+				// function) to the function's result; assumed at call sites, not an obligation
+				c.NoProve = true
+				cur.Ensures = append(cur.Ensures, c)
+				cur.Notes = append(cur.Notes, "defines: "+c.Src)
 			case "proves":
 				// a postcondition that is proved for the function but not assumed at its call sites
 				// (callers can derive it from the other clauses and the frame; assuming it would only
